@@ -271,18 +271,35 @@ import (
 //@   ensures [created-entry-is-signed-by-identity] err == nil ==> result0.Key == identity.PublicKey
 
 // ---- utils.go ----
+// C02 vocabulary (facet wf).  names(e, k): entry e lists hash k as a predecessor; namedIn(m, k): some entry of m does.
+//@ define omv(m iface.IPFSLogOrderedEntries) = m.(*OrderedMap).values
+//@ define keyedByHash(m iface.IPFSLogOrderedEntries) = isOM(m) && (forall k string :: has(omv(m), k) ==> validEntry(omv(m)[k]) && ehash(omv(m)[k]) == k)
+//@ define names(e iface.IPFSLogEntry, k string) = exists j int :: 0 <= j && j < len(e.Next) && str(e.Next[j]) == k
+//@ define namedIn(m iface.IPFSLogOrderedEntries, k string) = exists k2 string, j int :: has(omv(m), k2) && 0 <= j && j < len(omv(m)[k2].Next) && str(omv(m)[k2].Next[j]) == k
+//@ define notNamedIn(m iface.IPFSLogOrderedEntries, k string) = forall k2 string, j int :: has(omv(m), k2) && 0 <= j && j < len(omv(m)[k2].Next) ==> str(omv(m)[k2].Next[j]) != k
 //@ func FindHeads
 //@   requires entries == nil || (isOM(entries) && (forall k string :: has(entries.(*OrderedMap).values, k) ==> validEntry(entries.(*OrderedMap).values[k])))
+//@ @wf requires entries == nil || keyedByHash(entries)
+//@ @wf ensures [heads-are-entries-nothing-names] entries != nil ==> forall i int :: 0 <= i && i < len(result) ==> has(omv(entries), ehash(result[i])) && omv(entries)[ehash(result[i])] == result[i] && notNamedIn(entries, ehash(result[i]))
+//@ @wf ensures [every-unnamed-entry-is-a-head] entries != nil ==> forall k string :: has(omv(entries), k) ==> (exists r int :: 0 <= r && r < len(result) && result[r] == omv(entries)[k]) || namedIn(entries, k)
 //@   lockrequires entries == nil || held[entries.(*OrderedMap).lock] >= 0
 //@   ensures [find-heads-returns-entries-of-the-map] forall i int :: 0 <= i && i < len(result) ==> validEntry(result[i]) && (exists k string :: has(entries.(*OrderedMap).values, k) && entries.(*OrderedMap).values[k] == result[i])
 //@   ensures entries == nil ==> len(result) == 0
 //@   ensures result == nil || fresh(result)
 //@   loop 0
 //@     invariant fresh(items)
+//@ @wf invariant [seen-nexts-are-recorded] forall i int, j int :: 0 <= i && i < $k && 0 <= j && j < len(omv(entries)[$r[i]].Next) ==> has(items, str(omv(entries)[$r[i]].Next[j]))
+//@ @wf invariant [recorded-hashes-are-named] forall n string :: has(items, n) ==> has(omv(entries), items[n]) && (exists j int :: 0 <= j && j < len(omv(entries)[items[n]].Next) && str(omv(entries)[items[n]].Next[j]) == n)
 //@   loop 1
 //@     invariant fresh(items) && validEntry(e)
+//@ @wf invariant e == omv(entries)[k] && has(omv(entries), k) && k == $r0[$k0] && $r == e.Next
+//@ @wf invariant [seen-nexts-are-recorded] forall i int, j int :: 0 <= i && i < $k0 && 0 <= j && j < len(omv(entries)[$r0[i]].Next) ==> has(items, str(omv(entries)[$r0[i]].Next[j]))
+//@ @wf invariant forall j int :: 0 <= j && j < $k ==> has(items, str(e.Next[j]))
+//@ @wf invariant [recorded-hashes-are-named] forall n string :: has(items, n) ==> has(omv(entries), items[n]) && (exists j int :: 0 <= j && j < len(omv(entries)[items[n]].Next) && str(omv(entries)[items[n]].Next[j]) == n)
 //@   loop 2
 //@     invariant off(result) == 0 && (result == nil || fresh(result))
+//@ @wf invariant forall i int :: 0 <= i && i < len(result) ==> has(omv(entries), ehash(result[i])) && omv(entries)[ehash(result[i])] == result[i] && !has(items, ehash(result[i]))
+//@ @wf invariant forall i int :: 0 <= i && i < $k ==> has(items, $r[i]) || (exists r int :: 0 <= r && r < len(result) && result[r] == omv(entries)[$r[i]])
 //@     invariant forall i int :: 0 <= i && i < len(result) ==> validEntry(result[i])
 //@     invariant forall i int :: 0 <= i && i < len(result) ==> (exists k string :: has(entries.(*OrderedMap).values, k) && entries.(*OrderedMap).values[k] == result[i])
 
